@@ -16,6 +16,16 @@ CLAIMS = {
   note="Trusted: Coq kernel; Ledger.v as a model of ledger/*.go (tied on every run by differential runs incl. tree-op order via the verif hook); IAVL/goleveldb modelled as immutable versioned maps. No axioms. The defect found (set-after-delete invisible until commit) was repaired by fix commit 64edcb9; the model follows the repaired code.",
   technique="Rocq refinement proof (simulation) ledger model -> overlay-map spec over all op sequences + model/spec-vs-FinalityLedger correspondence",
   ref="DESIGN.md section 7 C18"),
+ "C04": dict(
+  text="C04_holds (Props/C04.v): in ANY history of the abstract application (any start state, any sequence of BeginBlock/DeliverTx/EndBlock/Commit incl. duplicates and replays in later blocks) two successful deliveries never carry the same (sender, nonce), as long as nonces stay below 2^64-1; from C04_step (success only with the sender's current nonce, which then moves by exactly one and nobody else's moves), C04_fail (failed deliveries move no nonce) and C04_begin/end/commit (block processing moves no nonce); EVM path under the stated effect contract. The model Spec.v is run in Coq on every history the harness executed on the real RigoApp (responses and committed nonces/balances compared) and the trace predicate P_C04 (k-th success of a sender in a block carries committed nonce + k; committed nonce moves by the number of successes) is evaluated on the implementation's and the model's observations.",
+  note="Trusted: Coq kernel; Spec.v as a model of node/app.go, trx_executor.go and the controllers (tied by differential runs on generated histories, bounded by generator quality); signature check summarised by a flag (byte level: C03); EVM nonce behaviour is go-ethereum's (hypothesis evm_effect_nonce_ok). No axioms.",
+  technique="Rocq proof: nonce monotonicity invariant over operation lists + Spec-vs-RigoApp correspondence and trace predicate (vm_compute)",
+  ref="DESIGN.md section 7 C04"),
+ "C05": dict(
+  text="C05_holds (Props/C05.v): for every state and every transaction of the abstract application, a delivery that fails leaves every balance, nonce, name/document, code marker, bonded and unbonding stake, reward, proposal, vote and parameter, the block fee sum, the stake limiter and all control state exactly as they were (same_obs/same_ctl); hypotheses: Go type ranges, governance gas price < 2^192, balance + withdrawable reward < 2^256 — C05_price_bound_needed and C05_headroom_needed prove by witness that both are necessary (outside them a failed delivery does leave changes). Proved by showing that all validation precedes execution and that validated execution cannot fail. Tie: Spec.v run in Coq on the real node's histories (all observables compared) and fork-and-delete on the implementation: every history is re-executed on a second real node without its failed transactions and every remaining answer and committed projection must be identical.",
+  note="Trusted: Coq kernel; Spec.v (tied by differential runs); an empty receiver account left by a failed delivery is identified with an absent one (documented caveat: with gas price 0 a later transaction from that address could tell). EVM failures revert in go-ethereum (trusted). No axioms.",
+  technique="Rocq proof (validation-before-execution, validated execution cannot fail) + Spec-vs-RigoApp correspondence + fork-and-delete differential on the implementation",
+  ref="DESIGN.md section 7 C05"),
  "C03": dict(
   text="Props/C03.v: RLP encoding is injective (prefix-free) on items below 2^64 bytes; the field->RLP map of a transaction is injective on decoded transactions of all eight types (bit-cast integer fields included); the signing preimage determines chain id and all signed fields for every chain id not containing ') Signed Message:\\n' (C03_chainid_hypothesis_needed exhibits the collision otherwise); C03_holds: with idealised signature recovery and hashing stated as hypotheses, a signature made for (chain0, tx0) by key k verifies for (chain, tx) only if nothing was altered and tx.From is k's address. The model's preimage is compared byte for byte with the real PreImageToSignTrxRLP on generated vectors, and every single-field alteration of honestly signed transactions is passed to the real VerifyTrxRLP. The no-effect half of the statement is C05; delivery of tampered transactions is exercised by the application-level checks.",
   note="Trusted: Coq kernel; Rlp.v/Preimage.v as a model of go-ethereum rlp + trx.go encoders (tied byte for byte on generated vectors); ECDSA/SHA-256 idealised as explicit hypotheses; chain-id hypothesis; payload kind determined by Type (true of both wire decoders). No axioms.",
